@@ -867,10 +867,12 @@ Proof.
   rewrite mac_string_exact; auto. cbn [length] in *. lia.
 Qed.
 
-Lemma c_ifa_row_exact junk i : length junk = NI_MAXHOST -> wf_ifa i = true ->
-  c_ifa_row junk i = Val (spec_ifa_row i).
+Lemma c_ifa_row_exact fs junk i : length junk = NI_MAXHOST -> wf_ifa i = true -> (fs = true \/ name_utf8 i = true) ->
+  c_ifa_row fs junk i = Val (spec_ifa_row i).
 Proof.
-  intros Hj Hwf. unfold wf_ifa in Hwf. apply andb_true_iff in Hwf as [Hwf Ha]. apply andb_true_iff in Hwf as [_ Hn].
+  intros Hj Hwf Hname. unfold wf_ifa in Hwf. apply andb_true_iff in Hwf as [_ Ha].
+  assert (Hn : fs || utf8_valid (ifa_name i) = true).
+  { destruct Hname as [->|Hn]; [reflexivity|]. unfold name_utf8 in Hn. rewrite Hn. apply orb_true_r. }
   unfold c_ifa_row, spec_ifa_row. destruct (ifa_addr i) as [a|]; [|reflexivity].
   apply andb_true_iff in Ha as [Ha Hb]. apply andb_true_iff in Ha as [Ha Hm].
   rewrite (convert_exact junk (sa_family a) (Some a) Hj Ha). cbn [obind].
@@ -884,16 +886,57 @@ Proof.
     + cbn [obind fst snd]. now rewrite Hn.
 Qed.
 
-(* every interface list: one row per node that has an address of a known family, with the text of all its
-   sll_halen hardware-address bytes / its numeric IP text, netmask, and broadcast or peer by the flags *)
-Lemma c_net_if_addrs_exact junk l : length junk = NI_MAXHOST -> forallb wf_ifa l = true ->
-  c_net_if_addrs junk l = Val (spec_if_rows l).
+Lemma c_net_if_addrs_gen_exact fs junk l : length junk = NI_MAXHOST -> forallb wf_ifa l = true ->
+  (fs = true \/ forallb name_utf8 l = true) ->
+  c_net_if_addrs_gen fs junk l = Val (spec_if_rows l).
 Proof.
-  intros Hj. induction l as [|i l IH]; intros H; [reflexivity|].
+  intros Hj. induction l as [|i l IH]; intros H Hn; [reflexivity|].
   cbn [forallb] in H. apply andb_true_iff in H as [Hi Hl].
-  cbn [c_net_if_addrs]. rewrite c_ifa_row_exact, IH by assumption. cbn [obind].
+  assert (Hn1 : fs = true \/ name_utf8 i = true).
+  { destruct Hn as [Hn|Hn]; [now left|right]. cbn [forallb] in Hn. now apply andb_true_iff in Hn as [Hn _]. }
+  assert (Hn2 : fs = true \/ forallb name_utf8 l = true).
+  { destruct Hn as [Hn|Hn]; [now left|right]. cbn [forallb] in Hn. now apply andb_true_iff in Hn as [_ Hn]. }
+  cbn [c_net_if_addrs_gen]. rewrite c_ifa_row_exact, IH by assumption. cbn [obind].
   unfold spec_if_rows. cbn [map filter_some]. destruct (spec_ifa_row i); reflexivity.
 Qed.
+
+(* every interface list whose names are UTF-8 (the code as it is) *)
+Lemma c_net_if_addrs_exact junk l : length junk = NI_MAXHOST -> forallb wf_ifa l = true -> forallb name_utf8 l = true ->
+  c_net_if_addrs junk l = Val (spec_if_rows l).
+Proof. intros. apply c_net_if_addrs_gen_exact; auto. Qed.
+
+(* every interface list, whatever bytes the names are made of (proposed repair) *)
+Lemma c_net_if_addrs_fsnames_exact junk l : length junk = NI_MAXHOST -> forallb wf_ifa l = true ->
+  c_net_if_addrs_fsnames junk l = Val (spec_if_rows l).
+Proof. intros. apply c_net_if_addrs_gen_exact; auto. Qed.
+
+Definition ifa_badname : ifa :=
+  {| ifa_name := [100; 255; 254]; ifa_flags := 73; ifa_addr := Some (SaLL [0; 0; 0; 0; 0; 0]); ifa_mask := None; ifa_baddr := None |}.
+
+(* finding: one interface whose name is not UTF-8 makes net_if_addrs() fail for the whole list, and net_if_stats() cannot
+   hand the name it read from /proc/net/dev to the ioctl wrappers *)
+Lemma ifname_refuted :
+  forallb wf_ifa [ifa_badname] = true /\
+  c_net_if_addrs (repeat 255 NI_MAXHOST) [ifa_badname] = Exc UnicodeError /\
+  net_if_stats_names false [map fs_esc (ifa_name ifa_badname)] = Exc UnicodeError /\
+  net_if_stats_names true [map fs_esc (ifa_name ifa_badname)] = Val [ifa_name ifa_badname].
+Proof. vm_compute. auto. Qed.
+
+Lemma fs_encode_esc b : wf_bytes b = true -> fs_encode (map fs_esc b) = Some b.
+Proof.
+  unfold wf_bytes. induction b as [|c b IH]; intros H; [reflexivity|].
+  cbn [forallb] in H. apply andb_true_iff in H as [Hc Hb]. unfold wf_byte in Hc. apply andb_true_iff in Hc as [H0 H1].
+  apply Z.leb_le in H0. apply Z.ltb_lt in H1.
+  cbn [map fs_encode]. rewrite IH by assumption. unfold fs_esc, fs_enc.
+  destruct (Z.ltb_spec c 128).
+  - destruct (Z.leb_spec 56448 c); [lia|]. cbn [andb]. unfold utf8_enc. destruct (Z.ltb_spec c 128); [reflexivity|lia].
+  - destruct (Z.leb_spec 56448 (56320 + c)); [|lia]. destruct (Z.leb_spec (56320 + c) 56575); [|lia]. cbn [andb].
+    replace (56320 + c - 56320) with c by lia. reflexivity.
+Qed.
+
+(* proposed repair: the name read from /proc/net/dev goes through to the ioctl unchanged, byte for byte *)
+Lemma nic_name_fs_roundtrip b : wf_bytes b = true -> contains 0 b = false -> nic_name_in true (PStr (map fs_esc b)) = Val b.
+Proof. intros Hw Hn. unfold nic_name_in, conv_fs. now rewrite fs_encode_esc, Hn. Qed.
 
 Lemma insert_by_fam_perm x l : Permutation (insert_by_fam x l) (x :: l).
 Proof.
